@@ -8,6 +8,11 @@ var commonTrusted = []string{
 
 func init() {
 	register(PropSpec{
+		ID:    "C09",
+		Title: "Evaluation is deterministic",
+		Rules: []func(*Prog, *Result){ruleMapRanges, ruleSortedMap, ruleGlobals, ruleNondetSources},
+	})
+	register(PropSpec{
 		ID:        "C08",
 		Title:     "Every invocation terminates with complete output or a reported error",
 		Technique: "static analysis: panic-site audit over SSA (unchecked type assertions, compiler-unproven bounds checks, explicit panics, division) and per-call-site classification of every call-graph cycle (depth-guarded / visited-guarded / structural on acyclic data), CLI exit discipline on the CFG",
